@@ -1114,12 +1114,12 @@ End Sound.
 (* ================================================================ where the code deviates *)
 Definition mkc (n : nat) (fl : flag) (t : ty) : cinfo * ty :=
   ({| c_name := n; c_tag := None; c_flag := fl |}, t).
-Definition choice_IB : ty := TCons KChoice [mkc 1 FMandatory (TPrim PInt); mkc 2 FMandatory (TPrim PBool)] None [].
+Definition choice_IB : ty := TCons KChoice [mkc 1 FMandatory (TPrim PInteger); mkc 2 FMandatory (TPrim PBool)] None [].
 
 (* T1 ::= INTEGER   T2 ::= CHOICE { c1 INTEGER, c2 BOOLEAN }   T3 ::= SET { c1 T1, c2 T2 } *)
 Definition w_refmark : module :=
   {| m_tagging := TgExplicit;
-     m_defs := [ {| d_name := 1; d_tag := None; d_ty := TPrim PInt |};
+     m_defs := [ {| d_name := 1; d_tag := None; d_ty := TPrim PInteger |};
                  {| d_name := 2; d_tag := None; d_ty := choice_IB |};
                  {| d_name := 3; d_tag := None;
                     d_ty := TCons KSet [mkc 1 FMandatory (TRef 1); mkc 2 FMandatory (TRef 2)] None [] |} ] |}.
@@ -1142,7 +1142,7 @@ Qed.
 (* the same module with the two members written in the other order is rejected *)
 Example refmark_swapped_rejected :
   check {| m_tagging := TgExplicit;
-           m_defs := [ {| d_name := 1; d_tag := None; d_ty := TPrim PInt |};
+           m_defs := [ {| d_name := 1; d_tag := None; d_ty := TPrim PInteger |};
                        {| d_name := 2; d_tag := None; d_ty := choice_IB |};
                        {| d_name := 3; d_tag := None;
                           d_ty := TCons KSet [mkc 1 FMandatory (TRef 2); mkc 2 FMandatory (TRef 1)] None [] |} ] |}
@@ -1389,7 +1389,7 @@ Qed.
 (* non-vacuity: T1 ::= INTEGER   T2 ::= SET { c1 T1, c2 CHOICE { c1 BOOLEAN, c2 NULL }, c3 ENUMERATED { e1(3), e2(5) } } *)
 Definition w_ok : module :=
   {| m_tagging := TgExplicit;
-     m_defs := [ {| d_name := 1; d_tag := None; d_ty := TPrim PInt |};
+     m_defs := [ {| d_name := 1; d_tag := None; d_ty := TPrim PInteger |};
                  {| d_name := 2; d_tag := None;
                     d_ty := TCons KSet [mkc 1 FMandatory (TRef 1);
                                         mkc 2 FMandatory (TCons KChoice [mkc 1 FMandatory (TPrim PBool); mkc 2 FMandatory (TPrim PNull)] None []);
